@@ -233,10 +233,6 @@ impl QueryDispatcher for DefaultQueryDispatcher {
         //     Ok(query::details::closest_points_cuboid_triangle(
         //         pos12, c1, t2, max_dist,
         //     ))
-        } else if let (Some(t1), Some(c2)) = (shape1.as_triangle(), shape2.as_cuboid()) {
-            Ok(query::details::closest_points_triangle_cuboid(
-                pos12, t1, c2, max_dist,
-            ))
         } else if let (Some(p1), Some(s2)) =
             (shape1.as_shape::<HalfSpace>(), shape2.as_support_map())
         {
